@@ -31,6 +31,27 @@ Definition cat (l : list string) : string := String.concat "," l.
 """
 
 KEY_WS = "x86-operand-kind-depends-on-blanks"
+KEY_CMT = "x86-comment-with-non-ascii-text-raises"
+NON_ASCII = ["caf\u00e9", "\u00b5s", "na\u00efve", "\u2192 x", "gr\u00f6\u00dfe", "\u00a9 2024", "\u4e2d\u6587", "a\u00e9b c"]
+
+KNOWN_GRAMMAR_DIGESTS = {"e35a1f46b7802b61",   # pinned tree
+                         "2a04efe4a12bffa4"}   # pinned tree + patches/C09-fix-*.diff
+
+# minimised regression lines (run first): (line, canonical AST as written)
+CORPUS = [
+    ("mov 5 , %eax", "I:mov:M(5;-;-;1),R(eax)"),                 # absolute address followed by a blank
+    ("mov 5, %eax", "I:mov:M(5;-;-;1),R(eax)"),
+    ("jmp 4096\t", "I:jmp:M(4096;-;-;1)"),
+    ("mov 0x10(%rax), %rbx", "I:mov:M(16;rax;-;1),R(rbx)"),      # hexadecimal displacement
+    ("mov -0x10(%rax,%rbx), %rcx", "I:mov:M(-16;rax;rbx;1),R(rcx)"),  # scale omitted
+    ("mov (,%rbx,8), %rcx", "I:mov:M(-;-;rbx;8),R(rcx)"),         # index without base
+    ("mov ( , %rbx ), %rcx", "I:mov:M(-;-;rbx;1),R(rcx)"),
+    ("movq $-0xFF , %RAX // c", "I:movq:I(-255),R(RAX)"),
+    ("movabs $0xFFFFFFFFFFFFFFFF,%rax#c", "I:movabs:I(18446744073709551615),R(rax)"),
+    ("jne .L4", "I:jne:L(.L4)"),
+    ("lea foo(%rip), %rax", "I:lea:M(L(foo);rip;-;1),R(rax)"),
+    ("ret", "I:ret:"),
+]
 
 
 def mutate(rng, line):
@@ -231,10 +252,36 @@ def run(ctx):
     ctx.ensure_static()
     ctx.compile_theorems("Props/C09.v")
 
-    n_wf = ctx.n(3000, 40000)
-    n_mal = ctx.n(3000, 40000)
-    n_files = ctx.n(150, 1500)
+    # structural digest of the live grammar objects: a change alone is no verdict, it triples this run's case budget
+    import hashlib
+    digest = hashlib.sha1("|".join(str(getattr(parser, a, None)) for a in
+                                   ("comment", "label", "directive", "register", "instruction_parser")).encode()).hexdigest()[:16]
+    boost = 1 if digest in KNOWN_GRAMMAR_DIGESTS else 3
+    ctx.coverage["grammar_digest"] = {"digest": digest, "known": boost == 1}
+    n_wf = ctx.n(3000, 40000) * boost
+    n_mal = ctx.n(3000, 40000) * boost
+    n_files = ctx.n(150, 1500) * boost
     rng = ctx.rng
+
+    # ---- regression corpus
+    for line, exp in CORPUS:
+        got, _ = g.impl_line(parser, line)
+        ctx.count()
+        if got != exp:
+            if got.startswith("I:") and metamorphic(parser, line):
+                ctx.violation(KEY_WS, "%r is recovered as %s but %r as %s (written: %s)"
+                              % (line, got, normalise_blanks(line), metamorphic(parser, line)[1], exp),
+                              {"kind": "line", "line": line, "expected": exp})
+            else:
+                ctx.violation("x86-roundtrip", "%r parsed as %s, written as %s" % (line, got, exp),
+                              {"kind": "line", "line": line, "expected": exp})
+
+    for line, exp in [("# caf\u00e9", "C"), ("ret # \u00b5s", "I:ret:"), ("foo: // na\u00efve", "L:foo")]:
+        got, _ = g.impl_line(parser, line)
+        ctx.count()
+        if got != exp:
+            ctx.violation(KEY_CMT, "%r -> %s, written as %s" % (line, "ValueError" if got == "E" else got, exp),
+                          {"kind": "line", "line": line, "expected": exp})
 
     # ---- well-formed stream + round-trip oracle (implementation only)
     wf = []
@@ -298,6 +345,36 @@ def run(ctx):
             ctx.violation("x86-line-kind", "%r classified as %s, written as %s" % (t, got, exp), {"kind": "line", "line": t, "expected": exp})
         others.append((t, got))
     mal += others
+
+    # ---- comments whose text is not ASCII (source lines echoed by -fverbose-asm / -fsource-asm): implementation only
+    n_cmt = 0
+    for _ in range(ctx.n(120, 1200)):
+        text = g.gen_comment_text(rng).replace("\t", " ") + " " + rng.choice(NON_ASCII) + rng.choice(["", " x", " # y"])
+        marker = "//" if rng.random() < 0.4 else "#"
+        r = rng.random()
+        if r < 0.4:
+            ast = g.gen_ast(rng)
+            lay = g.gen_layout(rng, len(ast[1]))
+            lay["comment"] = None
+            if first_operand_class(ast):
+                continue
+            t, exp = g.render_line(lay, ast) + marker + text, g.canon_instr(ast)
+        elif r < 0.6:
+            t, exp = g.gen_ws(rng) + marker + text, "C"
+        elif r < 0.8:
+            t, n = gen_label_line(rng)
+            if "#" in t or "//" in t:
+                continue
+            t, exp = t + marker + text, "L:" + n
+        else:
+            t, exp = "\t.text #" + text, "D:text"     # inside a directive "//" is a parameter, not a comment
+        got, _ = g.impl_line(parser, t)
+        ctx.count()
+        n_cmt += 1
+        if got != exp:
+            ctx.violation(KEY_CMT, "%r -> %s, written as %s" % (t, "ValueError" if got == "E" else got, exp),
+                          {"kind": "line", "line": t, "expected": exp})
+    ctx.coverage["non_ascii_comment_lines"] = n_cmt
 
     # ---- files
     files = []
